@@ -258,6 +258,19 @@ def frame_form(repo: Repo, rep: Report) -> None:
                     break
             if bad:
                 break
+        # the method form BoolGridFrame.single_loop() is that call on the frame's own solver
+        if not bad:
+            from .encodings import tree_sig
+            for H, W in ((1, 1), (1, 2), (2, 1)):
+                k += 1
+                a, b = Instance(repo), Instance(repo)
+                fa, fb = a.w.cw.new("BoolGridFrame", a.s, H, W), b.w.cw.new("BoolGridFrame", b.s, H, W)
+                ra = a.w.call("active_edges_single_cycle", a.s, fa)
+                rb = b.w.cw.method(fb, "single_loop")()
+                if [tree_sig(c) for c in a.constraints()] != [tree_sig(c) for c in b.constraints()] or tree_sig(ra) != tree_sig(rb):
+                    bad = (f"BoolGridFrame({H}x{W}).single_loop() posts {[tree_sig(c) for c in b.constraints()][:3]}... and returns {tree_sig(rb)[:60]}; "
+                           f"active_edges_single_cycle(solver, frame) posts {[tree_sig(c) for c in a.constraints()][:3]}... and returns {tree_sig(ra)[:60]}")
+                    break
         if bad:
             rep.finding("ALG-9", GRAPH, "active_edges_single_cycle", "frame form", bad)
         else:
